@@ -278,6 +278,8 @@ mod wl {
         _factory: &'static DomainParticipantFactoryAsync<NullTransport>,
         participant: DomainParticipantAsync,
         topic: TopicAsync,
+        cases: std::cell::Cell<usize>,
+        dirty: std::cell::Cell<bool>,
     }
 
     impl World {
@@ -335,7 +337,7 @@ mod wl {
             let topic = boot
                 .drive(participant.create_topic::<Sample>("C32Topic", "Sample", QosKind::Default, NO_LISTENER, NO_STATUS))
                 .expect("create_topic");
-            World { tasks, worker_wakes, _factory: factory, participant, topic }
+            World { tasks, worker_wakes, _factory: factory, participant, topic, cases: std::cell::Cell::new(0), dirty: std::cell::Cell::new(false) }
         }
     }
 
@@ -396,14 +398,28 @@ mod wl {
         }
     }
 
+    /// One world (factory + worker loop + participant + topic) serves at most
+    /// WORLD_CASES cases: the participant's publisher counter is a u8.  A world in
+    /// which a case panicked is not reused.
+    const WORLD_CASES: usize = 100;
+
     pub fn run(nc: usize, nw: usize, ops: &[&str]) -> String {
         WORLD.with(|cell| {
-            if cell.borrow().is_none() {
+            let fresh = match cell.borrow().as_ref() {
+                Some(w) => w.cases.get() >= WORLD_CASES || w.dirty.get(),
+                None => true,
+            };
+            if fresh {
+                *cell.borrow_mut() = None;
                 *cell.borrow_mut() = Some(World::new());
             }
             let guard = cell.borrow();
             let w = guard.as_ref().unwrap();
-            run_in(w, nc, nw, ops)
+            w.cases.set(w.cases.get() + 1);
+            w.dirty.set(true);
+            let out = run_in(w, nc, nw, ops);
+            w.dirty.set(false);
+            out
         })
     }
 
@@ -472,7 +488,8 @@ mod wl {
                 }
                 "w" => {
                     let i = a(1);
-                    if i < nw && waiters[i].is_none() {
+                    if i < nw {
+                        own = Some(i); // a new call with a new waker: nothing to compare with
                         let mut ws = WaitSetAsync::new();
                         if t[2] != "-" {
                             for c in t[2].split(',') {
